@@ -555,7 +555,7 @@ static void* zv_fmalloc(void* op, size_t sz) { long const n = __sync_add_and_fet
 static void do_mtf(char** a) {
     int from = (int)hx(a[1]), to = (int)hx(a[2]); long k = (long)hx(a[3]); int ldm = (int)hx(a[4]);
     zv_count cnt; ZSTD_customMem cm; ZSTD_CCtx* c; size_t const n = 1 << 20; unsigned char* src = (unsigned char*)malloc(n); size_t const cap = ZSTD_compressBound(n);
-    unsigned char* dst = (unsigned char*)malloc(cap); size_t r1, r2, r3, so; long used;
+    unsigned char* dst = (unsigned char*)malloc(cap); size_t r1, r2, r3, so; long used; volatile int stage = 0;
     memset(&cnt, 0, sizeof cnt); cm.customAlloc = zv_fmalloc; cm.customFree = zv_cfree; cm.opaque = &cnt;
     gen_data(src, n, 21); zv_failAt = -1; zv_allocNo = 0;
     c = ZSTD_createCCtx_advanced(cm);
@@ -569,9 +569,10 @@ static void do_mtf(char** a) {
     zv_failAt = -1; used = zv_allocNo - used;
     printf("r1=%s r2=%s allocs=%lx ", ecode(r1), ecode(r2), used); fflush(stdout);
     zv_armed = 1;
-    if (sigsetjmp(zv_jmp, 1)) { zv_armed = 0; printf("SIZEOF-SEGV live=%llx\n", (u64)cnt.live); goto done; }   /* the context is abandoned */
+    if (sigsetjmp(zv_jmp, 1)) { zv_armed = 0; printf("%s live=%llx\n", stage ? "NEXT-SESSION-SEGV" : "SIZEOF-SEGV", (u64)cnt.live); goto done; }   /* the context is abandoned */
     so = ZSTD_sizeof_CCtx(c);
-    printf("%s/%llx/%llx ", so < cnt.live ? "UNDER" : "ok", (u64)so, (u64)cnt.live);
+    printf("%s/%llx/%llx ", so < cnt.live ? "UNDER" : "ok", (u64)so, (u64)cnt.live); fflush(stdout);
+    stage = 1;
     r3 = ZSTD_compress2(c, dst, cap, src, n);
     so = ZSTD_sizeof_CCtx(c);
     printf("r3=%s %s/%llx/%llx ", ecode(r3), so < cnt.live ? "UNDER" : "ok", (u64)so, (u64)cnt.live);
@@ -591,7 +592,7 @@ done:
  *        C<size> ZSTD_compress2   S<size> ZSTD_compressStream2(continue) offering ONE byte of output (frame left open)
  *        E ZSTD_compressStream2(end) until done   Rs / Rp ZSTD_CCtx_reset(session_only / session_and_parameters)
  *        U<size>/<dictSize> ZSTD_compress_usingDict(level 3)   A<size>/<hashLog> ZSTD_compress_advanced(fast, that hashLog)   (also inside an open streaming frame: abandons it, fix 38ec6ea)
- *        Y<level> ZSTD_CCtx_reset(session_only), ZSTD_copyCCtx(this <- a fresh context of the same allocator after ZSTD_compressBegin(level)), ZSTD_compressEnd(1000 bytes)
+ *        Y<level> ZSTD_copyCCtx(this <- a fresh context of the same allocator after ZSTD_compressBegin(level)), ZSTD_compressEnd(1000 bytes)
  *        X<size> ZSTD_CCtx_setParametersUsingCCtxParams(level 5, nbWorkers 2, LDM) then compress2
  *        !<k> the k-th allocation made by the NEXT operation fails (that operation may answer memory_allocation; the context
  *             stays a live object: its size must be obtainable, later operations may succeed, ZSTD_freeCCtx releases everything)
@@ -632,9 +633,7 @@ static void do_chis(char** a, int n) {
         else if (k == 'A') { ZSTD_parameters p; memset(&p, 0, sizeof p); p.cParams = ZSTD_getCParams(1, v, 0); p.cParams.hashLog = (unsigned)v2; p.fParams.contentSizeFlag = 1;
             rc = ZSTD_isError(ZSTD_checkCParams(p.cParams)) ? 0 : ZSTD_compress_advanced(c, dst, cap, src, v, NULL, 0, p); }
         else if (k == 'Y') { ZSTD_CCtx* tmp = ZSTD_createCCtx_advanced(cm);   /* same allocator on both sides: see CPC for different ones */
-            /* the destination must not be in the middle of a frame (copying into an open streaming session is a misuse, not examined here) */
-            for (spin = 0; pollOK && spin < 4000 && ZSTD_getFrameProgression(c).nbActiveWorkers != 0; spin++) usleep(500);
-            ZSTD_CCtx_reset(c, ZSTD_reset_session_only);
+            /* also into a context whose streaming frame is open (abandons it: fix d3967a5) */
             rc = tmp ? ZSTD_compressBegin(tmp, (int)hxs(a[i] + 1)) : ERROR(memory_allocation); if (!ZSTD_isError(rc)) rc = ZSTD_copyCCtx(c, tmp, 0); ZSTD_freeCCtx(tmp);
             if (!ZSTD_isError(rc)) rc = ZSTD_compressEnd(c, dst, cap, src, 1000); }
         else if (k == 'X') { ZSTD_CCtx_params* p = ZSTD_createCCtxParams(); ZSTD_CCtxParams_init(p, 5); ZSTD_CCtxParams_setParameter(p, ZSTD_c_nbWorkers, 2);
@@ -691,6 +690,40 @@ static void do_cpc(char** a) {
     free(sbuf);
 }
 
+/* ---------------------------------------------------------------------------------------------------------
+ * round 3.  DSG placement windowLog srcLen seed ichunk ochunk level kind : a REAL multi-block frame (made by the library: matches that
+ *   reach back the whole window, blocks of every type) decoded by a static DStream of exactly
+ *   ZSTD_estimateDStreamSize_fromFrame(frame) bytes whose END touches a PROT_NONE page (placement >= 1): the output ring buffer is the
+ *   last object of the block, so a wild copy beyond it faults.  kind: 0 text-like, 1 long-distance repeats at the window edge, 2 noise + runs */
+static void do_dsg(char** a) {
+    unsigned placement = (unsigned)hx(a[1]); unsigned wlog = (unsigned)hx(a[2]); size_t n = (size_t)hx(a[3]); unsigned seed = (unsigned)hx(a[4]);
+    size_t ichunk = (size_t)hx(a[5]), ochunk = (size_t)hx(a[6]); int level = (int)hxs(a[7]); int kind = (int)hx(a[8]);
+    unsigned char* src = (unsigned char*)malloc(n + 8); size_t const cap = ZSTD_compressBound(n) + 64; unsigned char* frame = (unsigned char*)malloc(cap);
+    unsigned char* outb = (unsigned char*)malloc(n + 64); ZSTD_CCtx* c = ZSTD_createCCtx(); size_t fl, est, rc, prod = 0; zv_region r; char* ws; ZSTD_DCtx* d; size_t i;
+    gen_data(src, n, seed);
+    if (kind == 1) { size_t const w = (size_t)1 << wlog; for (i = w; i < n; i++) if (((i >> 6) & 3) == 0) src[i] = src[i - w + (i & 7)]; }   /* matches at distance ~ window */
+    if (kind == 2) { unsigned x = seed * 7 + 1; for (i = 0; i < n; i++) { x = x * 1103515245u + 12345u; src[i] = ((i >> 10) & 1) ? (unsigned char)(x >> 16) : (unsigned char)(i >> 12); } }
+    ZSTD_CCtx_setParameter(c, ZSTD_c_compressionLevel, level); ZSTD_CCtx_setParameter(c, ZSTD_c_windowLog, (int)wlog); ZSTD_CCtx_setParameter(c, ZSTD_c_contentSizeFlag, (int)(seed & 1));
+    fl = ZSTD_compress2(c, frame, cap, src, n); ZSTD_freeCCtx(c);
+    if (ZSTD_isError(fl)) { printf("CERR-%s\n", ecode(fl)); goto done0; }
+    est = ZSTD_estimateDStreamSize_fromFrame(frame, fl);
+    if (ZSTD_isError(est)) { printf("EST-%s\n", ecode(est)); goto done0; }
+    if (!zv_region_make(&r, est)) { printf("SKIP mmap\n"); goto done0; }
+    ws = zv_place(&r, est, placement);
+    zv_armed = 1;
+    if (sigsetjmp(zv_jmp, 1)) { zv_armed = 0; printf("SEGV est=%llx produced=%llx\n", (u64)est, (u64)prod); goto done; }
+    d = ZSTD_initStaticDCtx(ws, est);
+    if (!d) { zv_armed = 0; printf("NULL est=%llx\n", (u64)est); goto done; }
+    ZSTD_DCtx_setParameter(d, ZSTD_d_windowLogMax, ZSTD_WINDOWLOG_MAX);
+    rc = stream_decode(d, frame, fl, outb, n + 8, ichunk ? ichunk : 1, ochunk ? ochunk : 1, &prod);
+    zv_armed = 0;
+    printf("%s est=%llx frame=%llx out=%llx\n", ZSTD_isError(rc) ? ecode(rc) : (prod == n && !memcmp(outb, src, n)) ? "OK" : "BADDECODE", (u64)est, (u64)fl, (u64)d->outBuffSize);
+done:
+    zv_armed = 0; zv_region_free(&r);
+done0:
+    free(src); free(frame); free(outb);
+}
+
 int main(void) {
     static char line[1 << 16]; char* a[4096];
     struct sigaction sa; memset(&sa, 0, sizeof sa); sa.sa_sigaction = zv_segv; sa.sa_flags = SA_SIGINFO | SA_NODEFER; sigemptyset(&sa.sa_mask);
@@ -715,6 +748,7 @@ int main(void) {
         else if (!strcmp(a[0], "MTF")) do_mtf(a);
         else if (!strcmp(a[0], "CHIS")) do_chis(a, n);
         else if (!strcmp(a[0], "CPC")) do_cpc(a);
+        else if (!strcmp(a[0], "DSG") && n >= 9) do_dsg(a);
         else if (!strcmp(a[0], "DICTLEN")) printf("%llx\n", (u64)zv_dictLen);
         else if (!strcmp(a[0], "SIZES")) printf("%llx %llx\n", (u64)sizeof(ZSTD_DCtx), (u64)sizeof(ZSTD_DDictHashSet));
         else printf("UNKNOWN-CASE %s\n", a[0]);
